@@ -472,6 +472,39 @@ fn check_props(d: &hook::Dump, t: &hook::TypeDump, script: &str, rep: &mut Repor
         }
     }
     if let Some(Ok(dr)) = &t.drop_ops {
+        // every component that needs dropping is dropped, exactly once, where location puts it
+        let mut want = vec![];
+        {
+            let mut k = 0;
+            for (p, r) in &t.paths {
+                if p.len() != 1 {
+                    continue;
+                }
+                let child = children[k];
+                k += 1;
+                let skip = match (&t.node, p[0].0) {
+                    (hook::Node::Enum(vs), Some(v)) => {
+                        !vs[v].1.iter().all(|c| matches!(d.types[*c].layout, Ok(Some(_))))
+                    }
+                    _ => false,
+                };
+                if let (Ok(Some(o)), Ok(true)) = (r, &d.types[child].needs_drop) {
+                    if !skip {
+                        want.push(*o as u64);
+                    }
+                }
+            }
+        }
+        let got = offsets_in(dr, &["drop", "call drop"], "val");
+        let is_enum = matches!(t.node, hook::Node::Enum(_));
+        if (all_inhabited || is_enum) && got != want {
+            viol(
+                rep,
+                "the generated drop function does not release exactly the components that need dropping (leak or double drop)",
+                "offsets-disagree drop",
+                input(json!({"needs_drop_at": want, "dropped_at": got})),
+            );
+        }
         let dofs = offsets_in(dr, &["drop", "call drop"], "val");
         for o in dofs {
             if !loc.contains(&o) {
